@@ -754,8 +754,15 @@ impl WorldGen {
                 self.w.exec(None, &who, vec![], "breaker");
             }
             1 => {
-                // resume with unchanged totals (plain restart)
-                let line = format!("resume {} {} {}", v.st.total_native_token.u128(), v.st.total_liquid_stake_token.u128(), v.st.total_reward_amount.u128());
+                // resume with unchanged totals (plain restart), or -- kept -- re-based to a fraction of them (possibly below
+                // what the pending batch holds): batches and requests are none of ResumeContract's business
+                let k = if self.r.chance(30) { 1 + self.r.below(3) as u128 } else { 4 };
+                let line = format!(
+                    "resume {} {} {}",
+                    v.st.total_native_token.u128() / 4 * k,
+                    v.st.total_liquid_stake_token.u128() / 4 * k,
+                    v.st.total_reward_amount.u128()
+                );
                 self.w.exec(Some(2), &who, vec![], &line);
             }
             2 => {
@@ -988,6 +995,29 @@ impl WorldGen {
                 self.w.sim.execute(t, Some(1), who, p_list(funds, p_coin), parse_exec(&toks));
             }
             self.w.ops.push("tx_abort".to_string());
+            self.w.sim.deps.storage = clone_storage(&snap);
+            // the twin: the same calls with the oracle removed first (the oracle is optional: apart from the posts the
+            // outcomes must be the same with and without it)
+            if v.cfg.protocol_chain_config.oracle_address.is_some() {
+                let p = &v.cfg.protocol_chain_config;
+                let off = format!(
+                    "updcfg - ({};{};{};{};-) - - -",
+                    hs(&p.account_address_prefix),
+                    hs(&p.ibc_token_denom),
+                    hs(&p.ibc_channel_id),
+                    p.minimum_liquid_stake_amount.u128()
+                );
+                self.w.ops.push("tx_begin".to_string());
+                let toks: Vec<&str> = off.split(' ').collect();
+                self.w.ops.push(format!("exec {} 1 {} [] {}", t, hs(&admin), off));
+                self.w.sim.execute(t, Some(1), &admin, vec![], parse_exec(&toks));
+                for (who, funds, variant) in sq.iter() {
+                    let toks: Vec<&str> = variant.split(' ').collect();
+                    self.w.ops.push(format!("exec {} 1 {} {} {}", t, hs(who), funds, variant));
+                    self.w.sim.execute(t, Some(1), who, p_list(funds, p_coin), parse_exec(&toks));
+                }
+                self.w.ops.push("tx_abort".to_string());
+            }
             self.w.sim.deps.storage = snap;
         }
     }
